@@ -175,6 +175,15 @@ type Wrap struct{ Base }
 
 func (w Wrap) Describe() string { return fmt.Sprintf("wrap#%d", w.ID) }
 
+// Handle is a small hashable VALUE whose method reads through a pointer: the answer changes although the
+// value (as a map key) does not.
+type Handle struct {
+	P    *int
+	Name string
+}
+
+func (h Handle) Cur() int { return *h.P }
+
 func handObjects() []interface{} {
 	b := Base{ID: 7, Title: "bt", hid: "h"}
 	top := Top{Mid: Mid{Base: b, Level: 3}, Name: "top", Title: "tt"}
@@ -206,6 +215,7 @@ func handObjects() []interface{} {
 		Fetcher{N: 2}, &Fetcher{N: 3},
 		WithIface{K: 9}, &WithIface{K: 10},
 		Wrap{Base{ID: 11, Title: "wt"}}, &Wrap{Base{ID: 12}},
+		Handle{P: new(int), Name: "h1"}, &Handle{P: new(int), Name: "h2"},
 		Outer{inner: inner{ID: 5, Created: "then"}, inner2: &inner2{By: "me"}, Extra: "ox"}, &Outer{inner: inner{ID: 6}, Extra: "oy"},
 		map[string]interface{}{"1.1": "a", "1.10": "b", "1234": "c", "01234": "d", "1e3": "e", "1000": "f", "A": "g"}, map[string]string{"1.10": "sb", "01": "s1", "1": "s2"},
 		Shadow{EmbV: EmbV{Value: 3, Sum: "field-sum", Scale: 1.5}, K: 1}, &Shadow{EmbV: EmbV{Value: 4, Sum: "field-sum-2"}, K: 2},
@@ -216,7 +226,7 @@ var c20Names = []string{"A", "B", "C", "X", "Y", "ID", "Title", "Level", "Name",
 	"Describe", "Bump", "Hello", "Sum", "Scale", "Nothing", "Pair", "Value", "Double", "Base", "Mid", "name", "nil", "zzz", "F0", "F1", "F2", "F3",
 	"At", "Source", "Mail", "Lang", "Pages", "Draft", "Stamp", "Tracking", "Record", "Author",
 	"K", "N", "Desc", "Fetch", "Fetch2", "Join", "Args", "Created", "By",
-	"1.1", "1.10", "1234", "01234", "1e3", "1000", "01", "1"}
+	"1.1", "1.10", "1234", "01234", "1e3", "1000", "01", "1", "Cur", "Cur", "P"}
 
 var genFieldNames = []string{"A", "B", "C", "X", "F0", "F1", "F2", "F3"}
 var genFieldTypes = []reflect.Type{reflect.TypeOf(0), reflect.TypeOf(""), reflect.TypeOf(true), reflect.TypeOf(1.5), reflect.TypeOf([]int(nil))}
@@ -625,6 +635,12 @@ func (propC20) Run(scI interface{}) *Outcome {
 				}
 				obj := c20Object(hand, op.Obj)
 				op = c20Norm(op, obj)
+				switch h := obj.(type) { // what such a handle points at moves on between lookups
+				case Handle:
+					*h.P = i*7 + t
+				case *Handle:
+					*h.P = i*5 + t
+				}
 				isMap := obj != nil && reflect.TypeOf(obj).Kind() == reflect.Map
 				if op.Item && !isMap {
 					op.Item = false // the subscript form is only specified for maps
